@@ -561,7 +561,7 @@ class OpsMixin:
             cur = asyncio.current_task()
             for o in t.pool.tasks.values():
                 if not o.complete and (o.finished or o.ccb or o.ecb or o.unbegun_cancelled):
-                    if o.task is cur and o is not t:
+                    if (o.task is cur or o.cb_task is cur) and o is not t:
                         # the code issuing this cancellation runs inside a callback of a task the abandoned flush is
                         # gathering: gather() cancels that very task while it is running - a self-cancellation by detour
                         if not o.pending:
